@@ -8,6 +8,8 @@ import (
 	"reflect"
 	"time"
 
+	"github.com/philpearl/plenc"
+
 	"verifharness/core"
 	"verifharness/gen"
 	"verifharness/model"
@@ -27,6 +29,28 @@ func valuesPerType(c *core.Ctx) int {
 		return 40
 	}
 	return 24
+}
+
+// sharedInsts are long-lived instances, one per configuration and process: every case also runs
+// through them, so that codecs built for earlier types (tagged and untagged uses of the same
+// slice, map and named types in other structs) are in their registries. A violation seen only
+// there depends on the history of the instance; its replay re-runs the shard up to the case.
+var sharedInsts = map[string]*plenc.Plenc{}
+
+func sharedInst(tc *tcase) *plenc.Plenc {
+	p := sharedInsts[tc.name]
+	if p == nil {
+		p = instNew(tc.cfg)
+		sharedInsts[tc.name] = p
+	}
+	return p
+}
+
+func historyExtra(c *core.Ctx, tc *tcase, v reflect.Value, data []byte) map[string]any {
+	m := caseExtra(tc, v, data)
+	m["replay_from_shard_start"] = true
+	m["shard"], m["nshards"] = c.Shard, c.NShards
+	return m
 }
 
 func roundTripCase(c *core.Ctx, idx int, mode int) {
@@ -63,6 +87,22 @@ func roundTripCase(c *core.Ctx, idx int, mode int) {
 		}
 		if rec.WantSample() && len(data) > 4 && len(data) < 80 {
 			rec.Sample(map[string]any{"config": tc.name, "type": typeString(tc.typ), "value": model.Show(v), "bytes": fmt.Sprintf("%x", data)})
+		}
+		// the same value through the long-lived instance of this configuration
+		if sp := sharedInst(tc); j%3 == 0 {
+			sd, err, pn := marshal(sp, nil, ptrTo(v))
+			rec.Eval(1)
+			ok := err == nil && pn == "" && (bytes.Equal(sd, data) || (model.HasMultiMap(v) && len(sd) == len(data)))
+			if ok && mode == modeC01 {
+				so := reflect.New(tc.typ)
+				if err, pn := unmarshal(sp, sd, so.Interface()); err != nil || pn != "" || model.Diff(tc.cfg.Normalise(v, "", true), so.Elem(), "$") != "" {
+					ok = false
+				}
+			}
+			if !ok {
+				rec.Violation("history-dependent", fmt.Sprintf("a long-lived instance that has built codecs for other types before handles this value differently from a fresh instance [%s]: %v %s\n  type %s\n  value %s\n  fresh instance %s\n  used instance  %s", tc.name, err, trunc1(pn), typeString(tc.typ), model.Show(v), hexHead(data), hexHead(sd)), historyExtra(c, tc, v, data))
+				return
+			}
 		}
 		if mode == modeC02 {
 			checkWire(c, tc, v, data)
